@@ -1,4 +1,97 @@
-import EE.Model.Program
+import EE.Lemmas.DecLemmas
+import EE.Model.Value
+/-! # C17 — value conversions preserve the value
+
+`⟦d⟧ = d.num / 10^d.scale`; "denotes the integer n" is `d.num = n * 10^d.scale`. -/
 namespace EE.Props.C17
-theorem placeholder : True := trivial
+open EE
+
+/-- `Value::from(n)` for `i8 … i64`, `u8 … u64`: `Decimal::from_*` of a value below 2^96 in
+magnitude — the number with mantissa |n|, scale 0 and n's sign. -/
+def fromInt (n : Int) : Value := Value.ofInt n
+
+/-- `Value::from(n)` for the 128-bit types as the code does it: `Decimal::from_i128(n).unwrap_or_default()`,
+i.e. **0** when the magnitude does not fit the 96-bit mantissa. -/
+def fromWide (n : Int) : Value := if n.natAbs < mantLimit then Value.ofInt n else Value.ofInt 0
+
+def denotes (v : Value) (n : Int) : Prop := ∃ d, v = .num d ∧ d.num = n * 10 ^ d.scale
+
+theorem ofInt_num (n : Int) : (Dec.ofInt n).num = n ∧ (Dec.ofInt n).scale = 0 := by
+  unfold Dec.ofInt Dec.ofNumScale Dec.num
+  by_cases h : n < 0
+  · simp [h]; omega
+  · simp [h]; omega
+
+/-- Every 8/16/32/64-bit integer converts to exactly that integer (mantissa < 2^96, scale 0). -/
+theorem from_int (n : Int) (h : -9223372036854775808 ≤ n ∧ n ≤ 18446744073709551615) :
+    denotes (fromInt n) n ∧ (Dec.ofInt n).WF := by
+  refine ⟨⟨Dec.ofInt n, rfl, by simp [ofInt_num n]⟩, ?_⟩
+  unfold Dec.WF Dec.ofInt Dec.ofNumScale mantLimit maxScale
+  simp; omega
+
+/-- 128-bit integers below 2^96 in magnitude convert exactly … -/
+theorem from_wide_partial (n : Int) (h : n.natAbs < mantLimit) : denotes (fromWide n) n := by
+  simp only [fromWide, h, if_true]
+  exact ⟨Dec.ofInt n, rfl, by simp [ofInt_num n]⟩
+
+/-- … the full-strength statement for the 128-bit types (kept visible) … -/
+def statement_wide : Prop := ∀ n : Int, -170141183460469231731687303715884105728 ≤ n → n ≤ 340282366920938463463374607431768211455 → denotes (fromWide n) n
+
+/-- … is **false** of the code: `i128::MAX` becomes 0 (known finding KF-C17-from-wide). -/
+theorem violated_wide : ¬ statement_wide := by
+  intro h
+  obtain ⟨d, hd, hn⟩ := h 170141183460469231731687303715884105727 (by decide) (by decide)
+  have : fromWide 170141183460469231731687303715884105727 = Value.ofInt 0 := by
+    simp [fromWide, mantLimit]
+  rw [this] at hd
+  simp only [Value.ofInt] at hd
+  cases hd
+  have h0 := ofInt_num 0
+  rw [h0.1, h0.2] at hn
+  simp at hn
+
+/-! ## Round trips through the typed accessors -/
+theorem string_roundtrip (s : Text) : (Value.str s).string = .ok s := rfl
+theorem bool_roundtrip (b : Bool) : (Value.bool b).bool' = .ok b := rfl
+theorem decimal_roundtrip (d : Dec) : (Value.num d).decimal = .ok d := rfl
+theorem list_roundtrip (l : List Value) : (Value.list l).list' = .ok l := rfl
+
+/-! ## Every accessor rejects every other variant -/
+theorem decimal_rejects (v : Value) (h : ∀ d, v ≠ .num d) : v.decimal = .err .shouldBeNumber := by
+  cases v <;> first | rfl | exact absurd rfl (h _)
+theorem string_rejects (v : Value) (h : ∀ s, v ≠ .str s) : v.string = .err .shouldBeString := by
+  cases v <;> first | rfl | exact absurd rfl (h _)
+theorem bool_rejects (v : Value) (h : ∀ b, v ≠ .bool b) : v.bool' = .err .shouldBeBool := by
+  cases v <;> first | rfl | exact absurd rfl (h _)
+theorem list_rejects (v : Value) (h : ∀ l, v ≠ .list l) : v.list' = .err .shouldBeList := by
+  cases v <;> first | rfl | exact absurd rfl (h _)
+theorem integer_rejects_nonnumber (v : Value) (h : ∀ d, v ≠ .num d) : v.integer = .err .invalidInteger := by
+  cases v <;> first | rfl | exact absurd rfl (h _)
+
+/-- **`integer()` returns n for every number whose value is the integer n within the i64 range,
+whatever its scale, and an error for every other number.** The model goes the way the code goes
+(normalise, print as decimal text, parse as `i64`), so this is a genuine digit-string theorem. -/
+theorem integer_iff (d : Dec) (n : Int) :
+    (Value.num d).integer = .ok n ↔ (d.num = n * 10 ^ d.scale ∧ -9223372036854775808 ≤ n ∧ n ≤ 9223372036854775807) := by
+  rw [← Dec.toI64_spec]
+  simp only [Value.integer]
+  cases h : Dec.toI64 d with
+  | none => simp
+  | some k => simp
+
+theorem integer_rejects (d : Dec)
+    (h : ¬ ∃ n : Int, d.num = n * 10 ^ d.scale ∧ -9223372036854775808 ≤ n ∧ n ≤ 9223372036854775807) :
+    (Value.num d).integer = .err .invalidInteger := by
+  simp only [Value.integer]
+  cases hk : Dec.toI64 d with
+  | none => rfl
+  | some k => exact absurd ⟨k, (Dec.toI64_spec d k).mp hk⟩ h
+
+/-! Non-vacuity: `3.0`, `1.5 * 2 = 3.0`, `-0.0`; a fractional and an out-of-range value. -/
+example : (Value.num ⟨false, 30, 1⟩).integer = .ok 3 := by rfl
+example : (Value.num ⟨true, 0, 1⟩).integer = .ok 0 := by rfl
+example : (Value.num ⟨false, 35, 1⟩).integer = .err .invalidInteger := by rfl
+example : (Value.num ⟨false, 9223372036854775808, 0⟩).integer = .err .invalidInteger := by rfl
+example : (Value.num ⟨true, 92233720368547758080, 1⟩).integer = .ok (-9223372036854775808) := by rfl
+
 end EE.Props.C17
